@@ -574,6 +574,52 @@ def fstrings(n):
         yield ("f'{" + e + ":>4}'\n") if plain else ('f"""{' + e + ':>4}"""\n')
 
 
+# ----------------------------------------------------------------------------- literal text
+
+# character classes by UTF-8 width (and a combining sequence) x escape kinds: a decoder that works on
+# bytes, on latin-1 or per chunk goes wrong only when BOTH occur in one literal chunk
+_CHARS = ("", "a", "\u00e9", "\u20ac", "\U0001f600", "e\u0301")
+_ESCAPES = ("", "\\n", "\\t", "\\\\", "\\'", '\\"', "\\x41", "\\xe9", "\\u00e9", "\\u20ac", "\\U0001f600", "\\N{AMPERSAND}", "\\101", "\\0", "\\\n", "\\d", "\\a")
+_LIT_FORMS_QUICK = (
+    "f'B{x}'", "f'{x}B'", 'f"B"', "f\'\'\'B{x}B\'\'\'", "F'B{x}'", "rf'B{x}'", 'fr"B"', "f'{x:B}'", "f'{f\"B{y}\"}'", "'B' f'{x}B'", "f'B' 'B'",
+    "'B'", '"B"', "\'\'\'B\'\'\'", "r'B'", "u'B'", "b'B'", "rb'B'", "x = ['B', f'B{y}B']",
+)
+_F_PREFIXES = ("f", "F", "rf", "fr", "Rf", "fR")
+_QUOTES = ("'", '"', "\'\'\'", '"""')
+_F_POSITIONS = ("B", "B{x}", "{x}B", "B{x}B", "{x}B{y}", "{x:B}", "{x!r:B}", "{x:B{w}B}", "{x}B{y:B}")
+
+
+def _bodies():
+    seen = set()
+    for c in _CHARS:
+        for e in _ESCAPES:
+            for b in (c + e, e + c, c + e + c):
+                if b and b not in seen:
+                    seen.add(b)
+                    yield b
+
+
+def literal_text(n):
+    bodies = list(_bodies())
+    if n < 4:
+        for b in bodies:
+            for form in _LIT_FORMS_QUICK:
+                yield form.replace("B", b) + "\n"
+        return
+    for b in bodies:
+        for q in _QUOTES:
+            for pre in _F_PREFIXES:
+                for pos in _F_POSITIONS:
+                    yield pre + q + pos.replace("B", b) + q + "\n"
+            for pre in ("", "u", "r", "R", "b", "B", "rb", "bR"):
+                yield pre + q + b + q + "\n"
+            other = '"' if q[0] == "'" else "'"
+            yield f"f{q}{{f{other}{b}{{y}}{other}}}{q}\n"
+            yield f"f{q}{{x:{{f{other}{b}{other}}}}}{q}\n"
+        yield f"'{b}' f'{{x}}{b}' '{b}'\n"
+        yield f"x = (f'{b}'\n     '{b}'\n     f'{{y}}{b}')\n"
+
+
 # ----------------------------------------------------------------------------- statement sequences
 
 _SIMPLE = ("x{i} = v{i}", "f{i}(v{i})", "pass", "del x{i}", "import m{i}", "assert c{i}, 'm'", "x{i} += v{i}", "x{i}: T = v{i}", "raise E{i} from c{i}", "global g{i}", "return v{i}", "yield v{i}", "x{i} = yield", "await v{i}", "from m{i} import n{i}", "break", "continue", "x{i}, y{i} = v{i}", "lambda: v{i}", "'s{i}'")
@@ -635,6 +681,7 @@ FAMILIES = {
     "type-parameters": type_params,
     "string-concatenation": string_concat,
     "f-string-parts": fstrings,
+    "literal-text": literal_text,
     "simple-statement-lines": simple_statement_lines,
     "nested-blocks": nested_blocks,
 }
